@@ -303,6 +303,26 @@ pub fn check_case(mv: &MV, pi: usize, sched: &Sched) -> CaseResult {
                 }
             }
         }
+        // one Printer used for several values in a row: the texts arrive back
+        // to back, whatever the sink accepts per call (no state is carried over)
+        if matches!(sched, Sched::Max(_) | Sched::Cycle(_)) && !matches!(sched, Sched::Cycle(c) if c.contains(&0)) {
+            for with_opts in [false, true] {
+                let mut sink = Sink::new(sched, None);
+                let res = {
+                    let mut pr = if with_opts { Printer::with_options(&mut sink, p.to_lexpr()) } else { Printer::with_options(&mut sink, lexpr::print::Options::default()) };
+                    pr.print(&v).and_then(|_| pr.print(&v)).and_then(|_| pr.print(&lexpr::Value::symbol("end")))
+                };
+                let one = if with_opts { &s_custom } else { &s_default };
+                let want = format!("{}{}end", one, one);
+                if res.is_err() || sink.buf != want.as_bytes() {
+                    return Err((
+                        format!("entry=Printer-reused fault=short-write options={}", if with_opts { "custom" } else { "default" }),
+                        format!("printing the value twice and then a symbol through one Printer delivered {:?}, expected {:?} (result ok={})", bytes_lossy(&sink.buf), clip(&want, 200), res.is_ok()),
+                    ));
+                }
+                evals += 1;
+            }
+        }
         // Display into a failing fmt::Write
         let limits: Vec<usize> = match sched {
             Sched::ErrorEverywhere | Sched::FailOnceEverywhere => (0..=s_default.len()).collect(),
